@@ -120,7 +120,7 @@ def bounded_build(run, args):
         copts = [("default", {}), ("asserts", {"enable_serialization_asserts": True}), ("little", {"target_endianness": "little"}), ("omit-float", {"omit_float_serialization_support": True})]
         cppopts = [("c++14", {"std": "c++14"}), ("c++17", {"std": "c++17"}), ("c++20", {"std": "c++20"}), ("c++17-pmr", {"std": "c++17-pmr"})]
         if args.tier != "thorough":
-            copts, cppopts = copts[:3], cppopts[:3]
+            copts = copts[:3]  # every C++ flavour (incl. c++17-pmr: its allocator header is an option-dependent include) stays in the every-change tier
         for cname, root, lookup in corpora:
             has_float = cname != "kw2"
             for oname, opts in copts:
